@@ -13,7 +13,8 @@ NH = 6    # handle ledger entries
 
 
 class Func:
-    def __init__(self, name, params, result, cls, special=None, tier="quick"):
+    def __init__(self, name, params, result, cls, special=None, tier="quick", max_l=None):
+        self.max_l = max_l          # per-class cap of the list bound (nested heap data is expensive for CBMC)
         self.name = name            # WIT name (kebab)
         self.params = params        # [(name, Ty)]
         self.result = result        # Ty | None
@@ -297,6 +298,8 @@ def _has_string(t):
 
 def func_harness(world, f, exports, post, traits, opts, L, S, res_ids):
     """-> (text, meta) for one exported function; raises ValueError on a structural mismatch it cannot express"""
+    if f.max_l is not None:
+        L = min(L, f.max_l)
     ctx = hgen.Ctx(opts, L, S)
     name = f.rust
     if name not in exports:
@@ -443,7 +446,7 @@ def func_harness(world, f, exports, post, traits, opts, L, S, res_ids):
     text = "\n".join(["#[kani::proof]", "#[kani::unwind(%d)]" % unwind] + STUBS + ([UTF8_STUB] if uses_str else []) +
                      ["pub fn k_%s() { unsafe {" % name] + ["  " + l for l in body] + ["} }"])
     meta = {"function": f.name, "class": f.cls, "assumes": sorted(ctx.assumes), "unwind": unwind,
-            "props": ["C05", "C06"] + (["C07"] if hs else []), "direction": "export",
+            "props": ["C05", "C06"] + (["C07"] if hs else []), "direction": "export", "L": L,
             "heap": bool(ctx.in_bufs or ctx.out_bufs or indirect), "handles": bool(hs),
             "stubs": [UTF8_STUB_DOC] if uses_str else []}
     return text, meta
